@@ -4,15 +4,18 @@ import os
 import core
 
 
-def write_cfg(name, maxlen, profile, envset, extra="NoExtra"):
+def write_cfg(name, maxlen, profile, envset, extra="NoExtra", variant=None):
     path = os.path.join(core.SPEC, name)
     with open(path, "w") as f:
-        f.write(f"SPECIFICATION Spec\nCONSTANTS MaxLen = {maxlen}\n Profile = \"{profile}\"\n EnvSet = \"{envset}\"\n ExtraCheck <- {extra}\nCHECK_DEADLOCK FALSE\n")
+        f.write(f"SPECIFICATION Spec\nCONSTANTS MaxLen = {maxlen}\n Profile = \"{profile}\"\n EnvSet = \"{envset}\"\n ExtraCheck <- {extra}\n")
+        if variant:
+            f.write(f" Variant = \"{variant}\"\n")
+        f.write("CHECK_DEADLOCK FALSE\n")
     return name
 
 
 def gen_and_replay(acc, tag, maxlen, profile, envset, prop, workers=14, module="MC_ClvmGen", extra="NoExtra"):
-    cfg = write_cfg(f"{module}_{tag}.cfg", maxlen, profile, envset, extra=extra)
+    cfg = write_cfg(f"{module}_{tag}.cfg", maxlen, profile, envset, extra=extra, variant="faithful" if module == "MC_OptGen" else None)
     r = core.run_tlc(module, cfg, f"{acc.prop}_{tag}", workers=workers, timeout=3000)
     if not r.ok:
         raise core.ToolError(f"TLC reported an error on {module}/{tag}: {r.invariant_violated}\n{r.output[-2500:]}")
